@@ -105,6 +105,13 @@ var switchProbeWrites = []string{
 	"DELETE FROM `q.csv` WHERE id <> %d",
 }
 
+var probeMultiStmts = []string{
+	"UPDATE a, p SET a.v = a.v + 1 FROM `%s` a JOIN `p.csv` p ON a.id = p.id",
+	"DELETE a, p FROM `%s` a LEFT JOIN `p.csv` p ON p.id = a.id + 1000 WHERE a.id = 4",
+	"DELETE p, a FROM `%s` a LEFT JOIN `p.csv` p ON p.id = a.id + 1000 WHERE a.id >= 5",
+	"UPDATE p, a SET a.s = 'm' FROM `%s` a CROSS JOIN `p.csv` p WHERE a.id = 1",
+}
+
 func (g *genState) leaf() node {
 	t := g.t
 	if g.canSwitch {
@@ -130,6 +137,11 @@ func (g *genState) leaf() node {
 		return node{ID: g.id(), Kind: "exit", SQL: "EXIT"}
 	}
 	if fw.Pct(t, "probe", 12) {
+		if fw.Pct(t, "probeMulti", 30) {
+			// the probe is a listed target of a multi-table statement that changes only the other target
+			f := g.files[0]
+			return node{ID: g.id(), Kind: "dml", SQL: fmt.Sprintf(fw.PickU(t, "probeMultiStmt", probeMultiStmts), f)}
+		}
 		return node{ID: g.id(), Kind: "dml", SQL: fw.PickU(t, "probeStmt", probeStmts)}
 	}
 	tn, isTemp := g.target()
